@@ -113,6 +113,6 @@ mod verif_kani_presolver {
     #[kani::proof]
     #[kani::unwind(11)]
     fn reduce_cones_matches_spec_len3_nn_last() {
-        check_on([any_other_cone(), any_other_cone(), any_cone()]);
+        check_on([cone_of(2), cone_of(1), any_cone()]);
     }
 }
